@@ -946,7 +946,7 @@ pub fn run(args: &Args) -> i32 {
         "must_err_rule_checked": st["must_err_checked"],
         "panics_inside_the_users_own_lexer_excluded": st["user_lexer_panics"],
         "simulated_time_seam_events_total": st["events_total"], "simulated_time_seam_events_max_per_parse": events_max,
-        "step_budget": 50_000_000u64,
+        "step_budget": 5_000_000u64,
         "parsers_x_layouts_covered": report::distinct(&st["parsers"]),
         "distinct_cases": report::distinct(&st["distinct"]),
         "runs_per_hour": if wall > 0.0 { (parses as f64 / wall * 3600.0) as u64 } else { 0 },
